@@ -255,3 +255,75 @@ func c17StructCase(c *wk.Ctx, r *wk.Rand, idx int64) {
 		}
 	}
 }
+
+// c17StructMissing: Unserialize into struct-mapped objects whose sub-objects sit in by-value fields. A required
+// sub-object that the input leaves out is reported at the sub-object's own property - not at a property inside a
+// sub-object that the input does not contain - at the top level, below a list and below a map.
+func c17StructMissing(c *wk.Ctx) {
+	str := func() *gen.Shape { return &gen.Shape{Kind: gen.KString} }
+	intT := func() *gen.Shape { return &gen.Shape{Kind: gen.KInt} }
+	leafProps := func(reqA bool) []*gen.Prop {
+		return []*gen.Prop{{Name: "a", T: intT(), Required: reqA}, {Name: "b", T: str()}, {Name: "c", T: &gen.Shape{Kind: gen.KFloat}}, {Name: "d", T: &gen.Shape{Kind: gen.KBool}}}
+	}
+	for vi, reqA := range []bool{true, false} {
+		for wi, viaRef := range []bool{false, true} {
+			var innerT, pinnerT *gen.Shape
+			objs := []*gen.Shape{}
+			if viaRef {
+				innerT, pinnerT = &gen.Shape{Kind: gen.KRef, RefID: "Leaf"}, &gen.Shape{Kind: gen.KRef, RefID: "PLeaf"}
+				objs = append(objs, &gen.Shape{Kind: gen.KObject, ID: "Leaf", Struct: "P1", Props: leafProps(reqA)}, &gen.Shape{Kind: gen.KObject, ID: "PLeaf", Struct: "*P1", Props: leafProps(reqA)})
+			} else {
+				innerT = &gen.Shape{Kind: gen.KObject, ID: "Leaf", Struct: "P1", Props: leafProps(reqA)}
+				pinnerT = &gen.Shape{Kind: gen.KObject, ID: "PLeaf", Struct: "*P1", Props: leafProps(reqA)}
+			}
+			mid := &gen.Shape{Kind: gen.KObject, ID: "Mid", Struct: "P3", Props: []*gen.Prop{{Name: "inner", T: innerT, Required: true}, {Name: "pinner", T: pinnerT, Required: true}, {Name: "n", T: intT()}}}
+			root := &gen.Shape{Kind: gen.KObject, ID: "Root", Props: []*gen.Prop{
+				{Name: "one", T: &gen.Shape{Kind: gen.KRef, RefID: "Mid"}},
+				{Name: "jobs", T: &gen.Shape{Kind: gen.KList, Items: &gen.Shape{Kind: gen.KRef, RefID: "Mid"}}},
+				{Name: "named", T: &gen.Shape{Kind: gen.KMap, Keys: str(), Vals: &gen.Shape{Kind: gen.KRef, RefID: "Mid"}}}}}
+			shape := &gen.Shape{Kind: gen.KScope, Root: "Root", Objects: append([]*gen.Shape{root, mid}, objs...)}
+			t, ok, _ := buildGuarded(shape)
+			if !ok {
+				c.Violation("C17:directed-shape-not-built", "the hand-written struct-mapped scope could not be built", map[string]any{"schema": shape.Describe()})
+				continue
+			}
+			env := &gen.Env{}
+			descr := shape.Describe()
+			leaf := func() map[string]any { return map[string]any{"a": int64(1), "b": "x"} }
+			midV := func() map[string]any { return map[string]any{"inner": leaf(), "pinner": leaf(), "n": int64(3)} }
+			type inj struct {
+				what string
+				path []string
+				mk   func() map[string]any
+			}
+			drop := func(m map[string]any, k string) map[string]any { delete(m, k); return m }
+			var injs []inj
+			for _, k := range []string{"inner", "pinner"} {
+				k := k
+				injs = append(injs,
+					inj{"missing required sub-object " + k + " (top)", []string{"one", k}, func() map[string]any { return map[string]any{"one": drop(midV(), k)} }},
+					inj{"missing required sub-object " + k + " (list item)", []string{"jobs", "1", k}, func() map[string]any { return map[string]any{"jobs": []any{midV(), drop(midV(), k)}} }},
+					inj{"missing required sub-object " + k + " (map value)", []string{"named", "second", k}, func() map[string]any {
+						return map[string]any{"named": map[string]any{"first": midV(), "second": drop(midV(), k)}}
+					}})
+				if reqA {
+					injs = append(injs, inj{"missing required property inside " + k, []string{"jobs", "0", k, "a"}, func() map[string]any {
+						m := midV()
+						m[k] = map[string]any{"b": "x"}
+						return map[string]any{"jobs": []any{m}}
+					}})
+				}
+			}
+			for _, in := range injs {
+				raw := in.mk()
+				if ref.Denote(shape, raw, env).V != ref.Reject {
+					c.Count("skipped:not-must-reject")
+					continue
+				}
+				site := c17Site{path: in.path, chain: []string{"struct", "by-value"}, kind: "missing-required(struct-mapped)"}
+				c17Judge(c, t, fmt.Sprintf("[variant %d/%d] %s", vi, wi, descr), raw, site, "Unserialize", func() error { _, err := t.Unserialize(gen.CopyRaw(raw)); return err })
+				c.Count("struct_unserialize_injections")
+			}
+		}
+	}
+}
